@@ -12,40 +12,86 @@ Binding B: concurrent readers during writes and merges; DatabaseTrace.tla valida
 """
 import json
 import os
+import random
 from vlib import core
 
 ID = "C19"
 
 
 # ------------------------------------------------------------------ shared with C20 / C26
-def steps_to_case(cid, steps, check="all", permcache=0, writecache=0):
-    """steps: decoded `step` values of one behaviour (each has a, r, len, tf, ilh)."""
+def _acts(acts, model_wc, keep_reads):
+    out = []
+    for a in acts:
+        if a["name"] == "Read" and not keep_reads:
+            continue
+        if not model_wc and "wc" in a:
+            a = {k: v for k, v in a.items() if k != "wc"}
+        out.append(a)
+    return out
+
+
+def steps_to_case(cid, steps, check="all", permcache=0, writecache=0, model_wc=False):
+    """steps: decoded `step` values of one behaviour (each has a, r, rd, len, tf, ilh). A step whose `rd` is false
+    (NoRead of the spec) is performed without any read. model_wc: the spec chose per block whether the block
+    write database has a state cache (else the case's writecache holds for every block)."""
     acts, reads, ilh, ln, tf = [], [], [], [], []
     for i, s in enumerate(steps):
         acts.append(s["a"])
         last = i == len(steps) - 1
-        reads.append(s["r"] if (check == "all" or last) else None)
+        reads.append(s["r"] if (s.get("rd", True) and (check == "all" or last)) else None)
         ilh.append(s["ilh"])
         ln.append(s["len"])
         tf.append(s["tf"])
-    return {"id": cid, "acts": acts, "reads": reads, "ilh": ilh, "len": ln, "tf": tf,
+    return {"id": cid, "acts": _acts(acts, model_wc, True), "reads": reads, "ilh": ilh, "len": ln, "tf": tf,
             "permcache": permcache, "writecache": writecache}
 
 
-def path_case(cid, s, permcache=0, writecache=0):
-    """a dumped state of an exhaustive run: path + the reads at its end."""
-    acts = s["path"]
+def path_case(cid, s, permcache=0, writecache=0, model_wc=False, reads_in_path=False):
+    """a dumped state of an exhaustive run: path + the reads at its end. reads_in_path: the path's Read steps
+    (ReadAll of the spec: every read is performed there and fills the caches) are kept; the last one is where the
+    reads are compared."""
+    acts = _acts(s["path"], model_wc, reads_in_path)
     n = len(acts)
     return {"id": cid, "acts": acts, "reads": [None] * (n - 1) + [s["r"]], "ilh": [0] * (n - 1) + [s["ilh"]],
             "len": [0] * (n - 1) + [s["len"]], "tf": [0] * (n - 1) + [s["tf"]],
             "permcache": permcache, "writecache": writecache}
 
 
+def stratified(states, keyf, per, rng, must=None):
+    """seeded sample that keeps every stratum (class of state) represented: up to `per` states of each stratum
+    plus every state `must` selects."""
+    groups = {}
+    for s in states:
+        groups.setdefault(repr(keyf(s)), []).append(s)
+    out = []
+    for k in sorted(groups):
+        g = groups[k]
+        keep = [s for s in g if must and must(s)]
+        rest = [s for s in g if not (must and must(s))]
+        rng.shuffle(rest)
+        out += keep + rest[:max(0, per - len(keep))]
+    return out, len(groups)
+
+
+def big_of(s):
+    """(size class, height, merged into the permanent store, still in the chain) of the big block of a dumped state"""
+    for a in s["path"]:
+        if a["name"] in ("Write", "PermMerge") and a.get("cls", "s") != "s":
+            alive = any(k[0] == a["h"] and k[1] == a["g"] for k in s["r"]["kno"])
+            return (a["cls"], a["h"], alive and a["h"] < s["tf"] - 1, alive)
+    return None
+
+
 def canon_acts(acts):
     out = []
     for a in acts:
         if a["name"] in ("Write", "PermMerge"):
-            out.append([a["name"], a["h"], "".join(sorted(k[0] for k in a["st"]))])
+            row = [a["name"], a["h"], "".join(sorted(k[0] for k in a["st"]))]
+            if a.get("cls", "s") != "s":
+                row.append(a["cls"])
+            if a.get("wc") is not None:
+                row.append("wc" if a["wc"] else "nowc")
+            out.append(row)
         elif a["name"] == "Remove":
             out.append(["Remove", a["h"]])
         elif a["name"] == "PoolPut":
@@ -84,6 +130,20 @@ def classify(d, case):
         if got == "-9.-9":
             return "%s(undecodable-or-foreign)" % read
         return "%s(%s)" % (read, "stale" if got < want else "other-block")
+    if read.endswith("[filler]"):
+        # a record of a block with filler states: name the class by where the block is and how many batches moved it
+        h, g = (int(x) for x in arg.split("."))
+        w = [a for a in case["acts"] if a["name"] in ("Write", "PermMerge") and a["h"] == h and a["g"] == g]
+        gn, wn = (int(x.split()[0]) if x.split()[0].isdigit() else -1 for x in (got, want))
+        what = "lost" if gn < wn else "phantom"
+        if not w:
+            return "%s(%s)" % (read, what)
+        merged = h < tf - 1
+        if merged:
+            where = "merged-block;%s" % ("several-merge-batches" if w[0].get("mb", 1) > 1 else "one-merge-batch")
+        else:
+            where = "temp-block;%s" % ("several-write-batches" if w[0].get("wb", 1) > 1 else "one-write-batch")
+        return "%s(%s;%s)" % (read, what, where)
     if read in ("ExistsInStateOperation", "ExistsKnownOperation"):
         return "%s(%s)" % (read, "lost" if got == "false" else "phantom")
     if read in ("WriteBlock", "MergeOne", "MergeAllPermanent", "RemoveBlocks", "temps"):
@@ -150,68 +210,143 @@ def run(ctx):
     def phase(name):
         ph[name] = round(time.time() - t0[0], 1)
         t0[0] = time.time()
-    # 1. exhaustive: the model's own properties + every distinct state replayed
+    rng = random.Random(ctx.seed)
+    # (development aid: VERIF_C19_ONLY=size,mem runs only the named parts; the evidence then says so)
+    only = [x for x in os.environ.get("VERIF_C19_ONLY", "").split(",") if x]
+    if only:
+        ctx.extra["partial_run_only"] = only
     cfg = "Database_mc_quick.cfg" if quick else "Database_mc_thorough.cfg"
-    maxlen = 3 if quick else 4
-    r, states = ctx.tlc_dump_steps("Database", cfg, timeout=1500)
-    phase("tlc_exhaustive")
-    cases = [path_case(i, s, permcache=(0, 2, 4096)[i % 3], writecache=(0, 1, 64)[(i // 3) % 3])
-             for i, s in enumerate(states)]
-    res = run_cases(ctx, ID, cases, KEYS_Q, maxlen, "exh")
-    judge(ctx, cases, res, "exhaustive")
-    ctx.extra["exhaustive_states_replayed"] = len(cases)
-    phase("replay_exhaustive")
+    cfg_s = "Database_size_mc_quick.cfg" if quick else "Database_size_mc_thorough.cfg"
+    cfg_m = "Database_mem_mc_quick.cfg" if quick else "Database_mem_mc_thorough.cfg"
 
-    # 2. implementation-level transcription: candidates
-    cands = {}
-    # (the exhaustive configs above carry the REPAIRED transcription and ImplAgrees... as invariants: what
-    # fixes/C19-*.diff leaves agrees with the statement on the whole instance.) Here the pinned tree's
-    # transcription: quick = one run that stops at the first disagreement, thorough = one run per read.
-    runs = [("Database_impl_pinned_quick.cfg", None)] if quick else [
-        ("Database_impl_ImplAgreesSuffrageProof.cfg", "ImplAgreesSuffrageProof"),
-        ("Database_impl_ImplAgreesProofByBlockHeight.cfg", "ImplAgreesProofByBlockHeight")]
-    for c, inv in runs:
-        rr = ctx.tlc("Database", c, args=["-noGenerateSpecTE"], allow_violation=True, count=False, timeout=600,
-                     workers=2 if quick else None)
-        if rr.safety_violation:
-            cands[rr.violated] = True
-    for inv in ("ImplAgreesSuffrageProof", "ImplAgreesProofByBlockHeight"):
-        cands.setdefault(inv, False)
-    phase("impl")
-    ctx.extra["impl_transcription_disagrees"] = cands
-    met = set(k for (k, _, _) in ctx.viol) | set(ctx.known_hit)
-    moc = []
-    if cands["ImplAgreesSuffrageProof"] and not any("SuffrageProof(sh>existing)" in k for k in met):
-        moc.append("ImplAgreesSuffrageProof: the transcription of suffrageProofInTemps returns an older proof for a "
-                   "suffrage height that does not exist yet; not met on this tree")
-    if cands["ImplAgreesProofByBlockHeight"] and not any("ProofByBlockHeight(h<oldest-temp-1)" in k for k in met):
-        moc.append("ImplAgreesProofByBlockHeight: the transcription of SuffrageProofByBlockHeight asks the permanent "
-                   "store for oldest-temp-1; not met on this tree")
-    ctx.extra["model_only_counterexamples"] = moc
+    def part_exh():
+        # 1. exhaustive: the model's own properties + every distinct state replayed (the path's Read steps are
+        # performed: every read after every action, compared at the end)
+        maxlen = 3 if quick else 4
+        r, states = ctx.tlc_dump_steps("Database", cfg, timeout=1500)
+        phase("tlc_exhaustive")
+        cases = [path_case(i, s, permcache=(0, 2, 4096)[i % 3], writecache=(0, 1, 64)[(i // 3) % 3], reads_in_path=True)
+                 for i, s in enumerate(states)]
+        res = run_cases(ctx, ID, cases, KEYS_Q, maxlen, "exh")
+        judge(ctx, cases, res, "exhaustive")
+        ctx.extra["exhaustive_states_replayed"] = len(cases)
+        phase("replay_exhaustive")
 
-    # 3. random behaviours of a larger instance, every read after every step
-    num, depth = (100, 30) if quick else (1000, 50)
-    _, behs = ctx.tlc_simulate("Database", "Database_sim.cfg", num=num, depth=2 * depth)   # action + ReadAll
-    phase("tlc_simulate")
-    cases = [steps_to_case(i, b, permcache=(0, 2, 4096)[i % 3], writecache=(0, 1, 64)[(i // 3) % 3])
-             for i, b in enumerate(behs)]
-    res = run_cases(ctx, ID, cases, ["a", "b", "SUF", "POL"], 8, "sim")
-    judge(ctx, cases, res, "simulate")
-    phase("replay_simulate")
+    def part_size():
+        # 1b. block size: one block of the chain has a size class (records below / at / above the block write batch
+        # limit and the permanent merge batch limit, several batches); EVERY record of it is read at the end of the path.
+        # quick: a seeded sample that keeps every (class, big block merged / temp / removed, last action) represented
+        r, states = ctx.tlc_dump_steps("Database", cfg_s, timeout=1500)
+        phase("tlc_size")
+        states = [s for s in states if big_of(s)]
+        nall = len(states)
+        if quick:
+            states, nstrata = stratified(states, lambda s: (big_of(s)[0], big_of(s)[2], big_of(s)[3], s["a"]["name"]), 2, rng)
+        cases = [path_case(i, s, permcache=(4096, 0, 2)[i % 3], writecache=(0, 64, 1)[(i // 3) % 3], reads_in_path=True)
+                 for i, s in enumerate(states)]
+        res = run_cases(ctx, ID, cases, KEYS_Q, 3, "size")
+        judge(ctx, cases, res, "size")
+        cov = {}
+        for s in states:
+            b = big_of(s)
+            k = "%s:%s" % (b[0], "merged" if b[2] else "temp" if b[3] else "removed")
+            cov[k] = cov.get(k, 0) + 1
+        ctx.extra["size_classes"] = {"states": nall, "replayed": len(cases), "by_class": cov}
+        if not any(k.endswith(":merged") and k[0] == "m" and k[:2] in ("m+", "mm", "m3") for k in cov):
+            raise core.MachineryError("no block above the permanent merge batch limit was merged")
+        phase("replay_size")
 
-    # 4. concurrent readers (binding B)
-    readers(ctx)
-    phase("readers")
+    def part_mem():
+        # 1c. memory: the spec chooses per block whether the block write database has a state cache and where reads
+        # happen (ReadAll / NoRead); chains of 4 blocks so that a key can be merged, read (cached), written again and
+        # merged again. `eff` in the view keeps one path per distinct effect on the memory; quick: every state whose
+        # last action had to invalidate a cached key or merged / forgot a temp cache, a seeded sample of the others
+        r, states = ctx.tlc_dump_steps("Database", cfg_m, timeout=1500)
+        phase("tlc_mem")
+        states = [s for s in states if s["rd"]]
+        nall = len(states)
+        ndrop = sum(1 for s in states if s["mem"]["eff"]["drop"])
+        if quick:
+            states, nstrata = stratified(states, lambda s: (s["a"]["name"], s["mem"]["eff"]["tc"], len(s["mem"]["pc"]), s["len"]),
+                                         4, rng, must=lambda s: bool(s["mem"]["eff"]["drop"]))
+        cases = [path_case(i, s, permcache=(4096, 2, 4096, 0)[i % 4], writecache=(64, 1)[(i // 4) % 2], model_wc=True,
+                           reads_in_path=True) for i, s in enumerate(states)]
+        res = run_cases(ctx, ID, cases, KEYS_Q, 4, "mem")
+        judge(ctx, cases, res, "memory")
+        ctx.extra["memory_states"] = {"states": nall, "replayed": len(cases), "merge_invalidates_cached_key": ndrop}
+        if ndrop == 0:
+            raise core.MachineryError("no state in which a merge invalidates a cached key")
+        phase("replay_mem")
 
-    # 5. forced schedules of the permanent store's state cache against a merge (binding G)
-    forced(ctx, ID, "PermCache_enum_quick.cfg" if quick else "PermCache_enum.cfg")
-    phase("forced")
+    def part_impl():
+        # 2. implementation-level transcription: candidates
+        cands = {}
+        # (the exhaustive configs above carry the REPAIRED transcription and ImplAgrees... as invariants: what
+        # fixes/C19-*.diff leaves agrees with the statement on the whole instance.) Here the pinned tree's
+        # transcription: quick = one run that stops at the first disagreement, thorough = one run per read.
+        runs = [("Database_impl_pinned_quick.cfg", None)] if quick else [
+            ("Database_impl_ImplAgreesSuffrageProof.cfg", "ImplAgreesSuffrageProof"),
+            ("Database_impl_ImplAgreesProofByBlockHeight.cfg", "ImplAgreesProofByBlockHeight")]
+        for c, inv in runs:
+            rr = ctx.tlc("Database", c, args=["-noGenerateSpecTE"], allow_violation=True, count=False, timeout=600,
+                         workers=2 if quick else None)
+            if rr.safety_violation:
+                cands[rr.violated] = True
+        for inv in ("ImplAgreesSuffrageProof", "ImplAgreesProofByBlockHeight"):
+            cands.setdefault(inv, False)
+        if not quick:
+            # the sibling of the tree's merge: no purge of the merged keys from the state cache (Purge = FALSE) - the
+            # model says Center.State then disagrees with the chain; the replays above are what would meet it
+            rr = ctx.tlc("Database", "Database_mem_nopurge.cfg", args=["-noGenerateSpecTE"], allow_violation=True, count=False,
+                         timeout=600)
+            ctx.extra["model_without_purge_violates"] = rr.violated
+        phase("impl")
+        ctx.extra["impl_transcription_disagrees"] = cands
+        met = set(k for (k, _, _) in ctx.viol) | set(ctx.known_hit)
+        moc = []
+        if cands["ImplAgreesSuffrageProof"] and not any("SuffrageProof(sh>existing)" in k for k in met):
+            moc.append("ImplAgreesSuffrageProof: the transcription of suffrageProofInTemps returns an older proof for a "
+                       "suffrage height that does not exist yet; not met on this tree")
+        if cands["ImplAgreesProofByBlockHeight"] and not any("ProofByBlockHeight(h<oldest-temp-1)" in k for k in met):
+            moc.append("ImplAgreesProofByBlockHeight: the transcription of SuffrageProofByBlockHeight asks the permanent "
+                       "store for oldest-temp-1; not met on this tree")
+        ctx.extra["model_only_counterexamples"] = moc
+
+    def part_sim():
+        # 3. random behaviours of a larger instance, every read after every step
+        num, depth = (100, 30) if quick else (1000, 50)
+        _, behs = ctx.tlc_simulate("Database", "Database_sim.cfg", num=num, depth=2 * depth)   # action + ReadAll
+        phase("tlc_simulate")
+        # (the spec chooses size classes - at most one big block per behaviour -, state caches per block and NoRead steps)
+        cases = [steps_to_case(i, b, permcache=(0, 2, 4096)[i % 3], writecache=(1, 64)[(i // 3) % 2], model_wc=True)
+                 for i, b in enumerate(behs)]
+        res = run_cases(ctx, ID, cases, ["a", "b", "SUF", "POL"], 8, "sim")
+        judge(ctx, cases, res, "simulate")
+        phase("replay_simulate")
+
+    def part_readers():
+        # 4. concurrent readers (binding B)
+        readers(ctx)
+        phase("readers")
+
+    def part_forced():
+        # 5. forced schedules of the permanent store's state cache against a merge (binding G)
+        forced(ctx, ID, "PermCache_enum_quick.cfg" if quick else "PermCache_enum.cfg")
+        phase("forced")
+
+    for name, part in (("exh", part_exh), ("size", part_size), ("mem", part_mem), ("impl", part_impl), ("sim", part_sim),
+                       ("readers", part_readers), ("forced", part_forced)):
+        if not only or name in only:
+            part()
 
     ctx.exhaustive = True
-    ctx.rule = ("behaviours of Database.tla (WriteBlock/MergeOne/MergeAll/RemoveBlocks) replayed on a real Center; "
-                "exhaustive part: shortest path to every distinct state of %s, reads compared at its end; random part: "
-                "-simulate behaviours with all reads compared after every step; non-trivial = at least one block written; "
-                "distinct by action sequence (block contents by key set)" % cfg)
+    ctx.rule = ("behaviours of Database.tla (WriteBlock with size class and state cache choice/MergeOne/MergeAll/RemoveBlocks/"
+                "ReadAll/NoRead) replayed on a real Center; exhaustive parts: shortest path to every distinct state (view "
+                "includes the memory and the last action's effect on it) of %s, of %s (%s) and of %s (%s), every read performed "
+                "where the path reads, compared at its end, every record of a big block read; random part: -simulate "
+                "behaviours with all reads compared after every step; non-trivial = at least one block written; distinct by "
+                "action sequence (block contents by key set, size class, cache choice)" % (
+                    cfg, cfg_s, "stratified sample" if quick else "all", cfg_m, "stratified sample + every cache invalidation" if quick else "all"))
     ctx.assumptions = [
         "blocks are written through the BlockWriteDatabase API in the order a block writer uses it "
         "(SetStates, SetOperations, SetBlockMap, SetSuffrageProof, Write, MergeBlockWriteDatabase)",
@@ -221,6 +356,9 @@ def run(ctx):
 
 
 STALE_KEY = "State-older-than-committed;perm-state-cache"
+# the same observable in a history without any overlap of a read and a merge (reads, merges and reopens one
+# after the other): not the known race - the cache kept a state across the merge of a newer one
+STALE_SEQ_KEY = "State-older-than-committed;perm-state-cache;no-read-in-flight"
 
 
 def forced(ctx, prop, cfg, extra_args=()):
@@ -231,10 +369,10 @@ def forced(ctx, prop, cfg, extra_args=()):
     r, states = ctx.tlc_dump_steps("PermCache", cfg, timeout=900)
     cases = []
     for s in states:
-        for wc in (64, 0):
-            cases.append({"id": len(cases), "sched": s["sched"], "stored": s["stored"], "cache": s["cache"],
-                          "rets": s["rets"], "los": s["los"], "writecache": wc,
-                          "model_ok": bool(s["fresh"] and s["nostale"])})
+        # whether the merged temp carries a state cache is part of the schedule (["m","write","tempcache"])
+        cases.append({"id": len(cases), "sched": s["sched"], "stored": s["stored"], "cache": s["cache"],
+                      "rets": s["rets"], "los": s["los"], "writecache": 0, "raced": bool(s.get("raced")),
+                      "model_ok": bool(s["fresh"] and s["nostale"])})
     cp = os.path.join(ctx.work, "forced-cases.ndjson")
     rp = os.path.join(ctx.work, "forced-res.ndjson")
     core.write_ndjson(cp, cases)
@@ -243,7 +381,8 @@ def forced(ctx, prop, cfg, extra_args=()):
     if len(rows) != len(cases):
         raise core.MachineryError("forced: harness answered %d of %d schedules" % (len(rows), len(cases)))
     st = {"schedules": len(cases), "forced": 0, "not_forced": 0, "stale_on_code": 0, "model_stale": 0,
-          "model_stale_not_met": 0, "prediction_differs": 0}
+          "model_stale_not_met": 0, "prediction_differs": 0, "forced_sequential": 0, "forced_with_reopen": 0,
+          "forced_merge_of_cached_key_without_temp_cache": 0}
     for c in cases:
         x = rows[c["id"]]
         if x.get("panic"):
@@ -256,6 +395,12 @@ def forced(ctx, prop, cfg, extra_args=()):
         ctx.traces += 1
         ctx.case(["forced", c["sched"], c["writecache"]], nontrivial=any(a[0] == "m" for a in c["sched"]),
                  sample={"source": "forced", "sched": c["sched"], "fresh": x["fresh"], "stored": x["stored"]})
+        if not c["raced"]:
+            st["forced_sequential"] += 1
+        if any(a[0] == "x" for a in c["sched"]):
+            st["forced_with_reopen"] += 1
+        if cached_then_merged_without_temp_cache(c["sched"]):
+            st["forced_merge_of_cached_key_without_temp_cache"] += 1
         if not c["model_ok"]:
             st["model_stale"] += 1
         predicted = c["cache"] if c["cache"] != -1 else c["stored"]
@@ -271,7 +416,10 @@ def forced(ctx, prop, cfg, extra_args=()):
                 why = "reader %s was called after the merge of height %d had ended and got height %d" % (rd, 2 * lo, 2 * v)
         if stale:
             st["stale_on_code"] += 1
-            ctx.violation(STALE_KEY, "forced schedule %s (block write state cache %d): %s" % (c["sched"], c["writecache"], why),
+            ctx.violation(STALE_KEY if c["raced"] else STALE_SEQ_KEY,
+                          "forced schedule %s (%s): %s" % (
+                              c["sched"], "a read was in flight during a merge" if c["raced"] else
+                              "sequential history: no read in flight during any merge", why),
                           {"source": "forced", "case": c, "result": x})
         elif not c["model_ok"]:
             st["model_stale_not_met"] += 1
@@ -281,6 +429,20 @@ def forced(ctx, prop, cfg, extra_args=()):
             "PermCache: %d schedules end with a stale cache in the model but not on this tree" % st["model_stale_not_met"])
     if st["forced"] == 0:
         raise core.MachineryError("no schedule of PermCache.tla could be forced")
+
+
+def cached_then_merged_without_temp_cache(sched):
+    """a completed read filled the cache and a later merge came from a temp without a state cache"""
+    cached = False
+    for a in sched:
+        if a[1] == "setcache":
+            cached = True
+        elif a[0] == "x":
+            cached = False
+        elif a[0] == "m" and a[1] == "write":
+            if cached and len(a) > 2 and a[2] == "notempcache":
+                return True
+    return False
 
 
 def readers(ctx):
